@@ -474,8 +474,21 @@ func renderRun(c *Case, r *Run, ctx map[string]interface{}) (o obs) {
 			fe.AddFilter(name, func(v interface{}, args ...interface{}) (interface{}, error) { return "foreign", nil })
 			fe.AddFunction(name, func(args ...interface{}) (interface{}, error) { return "foreign", nil })
 		}
-		fe.EnableSandbox(makePolicy(Cfg{}))
-		fe.RegisterString("foreign", "{{ 1 }}")
+		if r.DefaultPolicy {
+			// the other engine takes the policy the library provides and opens it up for its own names, in place (as the
+			// documentation shows): that is its policy, not everybody's
+			p := twig.NewDefaultSecurityPolicy()
+			for _, name := range r.Foreign {
+				p.AllowedFilters[name] = true
+				p.AllowedFunctions[name] = true
+			}
+			fe.EnableSandbox(p)
+		} else {
+			fe.EnableSandbox(makePolicy(Cfg{}))
+		}
+		// (the other engine renders with its filters, also below an include: what it leaves in pooled objects is its own)
+		fe.RegisterString("foreigninc", "{% for n in [1] %}{{ 'x'|"+r.Foreign[0]+" }}{% endfor %}")
+		fe.RegisterString("foreign", "{{ 1 }}{{ 'y'|"+r.Foreign[0]+" }}{% include 'foreigninc' %}")
 		fe.Render("foreign", nil)
 	}
 	foreign()
